@@ -144,7 +144,10 @@ Lemma dispatch_spec c s : active s = true ->
     Permutation cl (cluster s ++ newms) /\
     k = Nat.min (length cl) (length (workers_sort (workers s))) /\
     cluster (fst (dispatch c s)) = skipn k cl /\
-    workers (fst (dispatch c s)) = skipn k (workers_sort (workers s)) /\
+    (workers (fst (dispatch c s)) = skipn k (workers_sort (workers s)) \/
+     (* the tick that starts the archive: every idle hand is told to leave *)
+     (workers (fst (dispatch c s)) = [] /\ active (fst (dispatch c s)) = false /\
+      forall w, In w (map fst (skipn k (workers_sort (workers s)))) -> In (OAbort w) (snd (dispatch c s)))) /\
     inflight (fst (dispatch c s)) =
       inflight s ++ combine (map fst (firstn k (workers_sort (workers s)))) (firstn k cl) /\
     busy (fst (dispatch c s)) = busy s ++ map msg_unit (firstn k cl) /\
@@ -161,23 +164,82 @@ Proof.
   destruct (hand_out (cluster_sort (cluster s3)) (workers_sort (workers s3)) (busy s3) (inflight s3) o1)
     as [[[[cl' w'] b'] fl'] o2] eqn:H.
   apply hand_out_spec in H. destruct H as (k & Hk & E1 & E2 & E3 & E4 & E5).
-  cbn [fst snd cluster workers inflight busy set_farm].
-  assert (Ws : workers s3 = workers s) by (rewrite W3; unfold s2; cbn; exact W1).
-  assert (Fs : inflight s3 = inflight s) by (rewrite F3; unfold s2; cbn; exact F1).
-  assert (Bs : busy s3 = busy s) by (rewrite B3; unfold s2; cbn; exact B1).
-  assert (Cs : cluster s3 = cluster s ++ ms) by (rewrite C3; unfold s2; cbn; rewrite C1; reflexivity).
-  rewrite Ws in *. rewrite Fs in *. rewrite Bs in *.
-  exists ms, (cluster_sort (cluster s3)), k.
-  split; [intros m Hm; apply M3; exact Hm|].
-  split; [rewrite cluster_sort_perm, Cs; reflexivity|].
-  split; [exact Hk|]. split; [exact E1|]. split; [exact E2|]. split; [exact E3|]. split; [exact E4|].
-  intros w m. rewrite E5. rewrite in_app_iff, in_app_iff. split.
-  - intros [[Hin|Hin]|Hin].
-    + apply O3 in Hin. destruct Hin as [Hin|Hin]; [|discriminate].
-      unfold o0 in Hin. destruct (archive s2 && _); [destruct Hin as [Hin|[]]; discriminate | contradiction].
-    + apply in_map_iff in Hin. destruct Hin as [[w0 m0] [E Hin]]. cbn in E. inversion E; subst. exact Hin.
-    + apply in_map_iff in Hin. destruct Hin as [p [E _]]. discriminate.
-  - intros Hin. left. right. apply in_map_iff. exists (w, m). split; [reflexivity|exact Hin].
+  assert (TAIL : forall X Y : state * list out, fst (if archive s2 && match jobs s2, busy s2, cluster s2 with [], [], [] => true | _, _, _ => false end then X else Y)
+                 = if archive s2 && match jobs s2, busy s2, cluster s2 with [], [], [] => true | _, _, _ => false end then fst X else fst Y)
+    by (intros X Y; destruct (archive s2 && _); reflexivity).
+  assert (TAILS : forall X Y : state * list out, snd (if archive s2 && match jobs s2, busy s2, cluster s2 with [], [], [] => true | _, _, _ => false end then X else Y)
+                 = if archive s2 && match jobs s2, busy s2, cluster s2 with [], [], [] => true | _, _, _ => false end then snd X else snd Y)
+    by (intros X Y; destruct (archive s2 && _); reflexivity).
+  rewrite !TAIL, !TAILS. clear TAIL TAILS.
+  destruct (archive s2 && match jobs s2, busy s2, cluster s2 with [], [], [] => true | _, _, _ => false end) eqn:TR;
+  cbn [fst snd cluster workers inflight busy active set_farm set_flags].
+  all: assert (Ws : workers s3 = workers s) by (rewrite W3; unfold s2; cbn; exact W1).
+  all: assert (Fs : inflight s3 = inflight s) by (rewrite F3; unfold s2; cbn; exact F1).
+  all: assert (Bs : busy s3 = busy s) by (rewrite B3; unfold s2; cbn; exact B1).
+  all: assert (Cs : cluster s3 = cluster s ++ ms) by (rewrite C3; unfold s2; cbn; rewrite C1; reflexivity).
+  all: rewrite Ws in *; rewrite Fs in *; rewrite Bs in *.
+  all: exists ms, (cluster_sort (cluster s3)), k.
+  all: split; [intros m Hm; apply M3; exact Hm|].
+  all: split; [rewrite cluster_sort_perm, Cs; reflexivity|].
+  all: split; [exact Hk|].
+  all: split; [exact E1|].
+  1: split; [right; split; [reflexivity|split; [reflexivity|]];
+             intros w Hw; apply in_or_app; right; apply in_map_iff in Hw;
+             destruct Hw as [p [Ep Hp]]; apply in_map_iff; exists p; split;
+             [rewrite Ep; reflexivity | rewrite E2; exact Hp]|].
+  2: split; [left; exact E2|].
+  all: split; [exact E3|].
+  all: split; [exact E4|].
+  all: intros w m; rewrite E5; rewrite in_app_iff, in_app_iff; split.
+  all: try (intros Hin; left; right; apply in_map_iff; exists (w, m); split; [reflexivity|exact Hin]).
+  all: intros [[Hin|Hin]|Hin].
+  all: try (apply in_map_iff in Hin; destruct Hin as [[w0 m0] [E Hin]]; cbn in E; inversion E; subst; exact Hin).
+  all: try (apply in_map_iff in Hin; destruct Hin as [p [E _]]; discriminate).
+  all: apply O3 in Hin; destruct Hin as [Hin|Hin]; [|discriminate]; unfold o0 in Hin;
+       first [ destruct Hin as [Hin|[]]; discriminate | contradiction ].
+Qed.
+
+(* ---- the tick that starts the archive: fsm.archiving_trigger() has taken the
+   pipeline out of `running`, notify_all() tells every idle hand to leave ---- *)
+Lemma archive_tick c s : In OArchive (snd (dispatch c s)) ->
+  active s = true /\
+  workers (fst (dispatch c s)) = [] /\ active (fst (dispatch c s)) = false /\
+  (forall w, In w (map fst (workers_sort (workers s))) -> In (OAbort w) (snd (dispatch c s))) /\
+  (forall w m, ~ In (OTask w m) (snd (dispatch c s))).
+Proof.
+  intros HA. destruct (active s) eqn:Ha; [|rewrite dispatch_inactive in HA by exact Ha; contradiction].
+  split; [reflexivity|].
+  revert HA. unfold dispatch. rewrite Ha. cbn [negb].
+  destruct (next_job_batch c s) as [s1 rel] eqn:N.
+  destruct (njb_farm _ _ _ _ N) as (W1 & F1 & B1 & C1 & J1 & A1 & S1 & R1).
+  set (s2 := set_farm s1 (jobs s1 ++ rel) (cluster s1) (busy s1) (workers s1) (inflight s1)).
+  destruct (archive s2 && match jobs s2, busy s2, cluster s2 with [], [], [] => true | _, _, _ => false end) eqn:TR.
+  - (* the archive tick: nothing to put, nothing to hand out *)
+    apply andb_true_iff in TR. destruct TR as [_ TR].
+    destruct (jobs s2) as [|j0 jr] eqn:EJ; [|discriminate].
+    destruct (busy s2) as [|b0 br] eqn:EB; [|discriminate].
+    destruct (cluster s2) as [|c0 cr] eqn:EC; [|discriminate].
+    cbn [fold_left]. rewrite EC. cbn [cluster_sort fold_left hand_out].
+    intros _. cbn [fst snd workers active set_farm set_flags].
+    split; [reflexivity|]. split; [reflexivity|]. split.
+    + intros w Hw. right. apply in_or_app. right. apply in_map_iff in Hw. destruct Hw as [p [Ep Hp]].
+      apply in_map_iff. exists p. split; [rewrite Ep; reflexivity|].
+      assert (Ws : workers s2 = workers s) by (unfold s2; cbn; exact W1).
+      rewrite Ws. exact Hp.
+    + intros w m [H|H]; [discriminate|]. apply in_app_or in H. destruct H as [[]|H].
+      apply in_map_iff in H. destruct H as [p [E _]]. discriminate.
+  - (* no archive: OArchive is not among the outputs *)
+    intros HA. exfalso.
+    destruct (fold_left (put_job c) (jobs s2) (s2, [])) as [s3 o1] eqn:P.
+    apply put_jobs_inv in P. destruct P as (_ & _ & _ & _ & _ & _ & O3).
+    destruct (hand_out (cluster_sort (cluster s3)) (workers_sort (workers s3)) (busy s3) (inflight s3) o1)
+      as [[[[cl' w'] b'] fl'] o2] eqn:H.
+    apply hand_out_spec in H. destruct H as (k & _ & _ & _ & _ & _ & E5).
+    cbn [snd] in HA. rewrite E5 in HA. apply in_app_or in HA. destruct HA as [HA|HA].
+    + apply in_app_or in HA. destruct HA as [HA|HA].
+      * apply O3 in HA. destruct HA as [[]|HA]. discriminate.
+      * apply in_map_iff in HA. destruct HA as [p [E _]]. discriminate.
+    + apply in_map_iff in HA. destruct HA as [p [E _]]. discriminate.
 Qed.
 
 (* workers_sort only reorders the idle list *)
@@ -259,8 +321,9 @@ Proof.
   destruct e; cbn [step].
   - destruct (organize_farm c names r tg s) as (_ & W & _). cbn [fst]. rewrite W. tauto.
   - destruct (active s) eqn:A; [|rewrite dispatch_inactive by exact A; cbn; tauto].
-    destruct (dispatch_spec c s A) as (newms & cl & k & _ & _ & _ & _ & Wk & _).
-    rewrite Wk. intros H. left. apply workers_sort_In. eapply skipn_In; exact H.
+    destruct (dispatch_spec c s A) as (newms & cl & k & _ & _ & _ & _ & [Wk|(Wk & _)] & _).
+    + rewrite Wk. intros H. left. apply workers_sort_In. eapply skipn_In; exact H.
+    + rewrite Wk. intros [].
   - pose proof (res_workers c x t r o values s) as W.
     destruct (res c x t r o values s) as [s' outs]. cbn [fst workers set_farm] in *. rewrite W. tauto.
   - unfold reg. destruct rev_ok; cbn [fst workers set_farm]; [|tauto].
@@ -354,7 +417,8 @@ Proof.
   destruct (dispatch_spec c s A) as (newms & cl & k & _ & _ & _ & _ & Wk & _ & _ & T).
   pose proof (workers_sort_nodup _ N) as N2.
   apply T in H. split.
-  - rewrite Wk. rewrite <- skipn_map. apply nodup_firstn_skipn_disjoint; [exact N2|].
+  - destruct Wk as [Wk|(Wk & _)]; [|rewrite Wk; intros []].
+    rewrite Wk. rewrite <- skipn_map. apply nodup_firstn_skipn_disjoint; [exact N2|].
     rewrite firstn_map. apply in_combine_l in H. exact H.
   - intros m' H'. apply T in H'. eapply In_combine_nodup_l; [|exact H'|exact H].
     rewrite <- firstn_map. clear - N2. revert k.
